@@ -165,52 +165,58 @@ func (c *FnCtx) lemmaFact(name string) string {
 	// under quantifiers carry no typing facts at the use site, so the guarded lemma would never
 	// apply.  The lemma is thereby assumed for ill-typed memory too, which no execution has.
 	_ = typing
-	body := implies(and(append(guards, req...)...), and(ens...))
-	// trigger: the applications of recursive spec functions in the conclusion
-	var pats []string
-	seen := map[string]bool{}
-	concl := and(ens...)
+	// one quantified fact per `ensures` clause, each triggered by the recursive-function
+	// applications of its own conclusion (a single multi-pattern over all conclusions would
+	// need every one of those terms to be present at the use site)
 	hyp := and(req...)
-	collect := func(text, prefix string) {
-		for i := 0; i+len(prefix) < len(text); i++ {
-			if strings.HasPrefix(text[i:], prefix) {
-				t, _ := readSexp(text[i:])
-				if !seen[t] && !strings.Contains(t, "!q") { // no variables of nested quantifiers
-					seen[t] = true
-					pats = append(pats, t)
+	var out []string
+	for _, concl := range ens {
+		body := implies(and(append(append([]string{}, guards...), req...)...), concl)
+		var pats []string
+		seen := map[string]bool{}
+		collect := func(text, prefix string) {
+			for i := 0; i+len(prefix) < len(text); i++ {
+				if strings.HasPrefix(text[i:], prefix) {
+					t, _ := readSexp(text[i:])
+					if !seen[t] && !strings.Contains(t, "!q") { // no variables of nested quantifiers
+						seen[t] = true
+						pats = append(pats, t)
+					}
 				}
 			}
 		}
-	}
-	covered := func() bool {
-		for _, v := range bound {
-			ok := false
-			for _, p := range pats {
-				if strings.Contains(p, v.T) {
-					ok = true
+		covered := func() bool {
+			for _, v := range bound {
+				ok := false
+				for _, p := range pats {
+					if strings.Contains(p, v.T) {
+						ok = true
+					}
+				}
+				if !ok {
+					return false
 				}
 			}
-			if !ok {
-				return false
-			}
+			return true
 		}
-		return true
+		collect(concl, "(sf_")
+		if !covered() {
+			collect(hyp, "(sf_")
+		}
+		if !covered() {
+			collect(concl, "(eaddr")
+		}
+		if !covered() {
+			collect(hyp, "(eaddr")
+		}
+		if !covered() {
+			pats = nil // no usable trigger: leave instantiation to the solver
+		}
+		if len(pats) > 0 {
+			out = append(out, fmt.Sprintf("(forall (%s) (! %s :pattern (%s)))", strings.Join(binders, " "), body, strings.Join(pats, " ")))
+		} else {
+			out = append(out, fmt.Sprintf("(forall (%s) %s)", strings.Join(binders, " "), body))
+		}
 	}
-	collect(concl, "(sf_")
-	if !covered() {
-		collect(hyp, "(sf_")
-	}
-	if !covered() {
-		collect(concl, "(eaddr")
-	}
-	if !covered() {
-		collect(hyp, "(eaddr")
-	}
-	if !covered() {
-		pats = nil // no usable trigger: leave instantiation to the solver
-	}
-	if len(pats) > 0 {
-		return fmt.Sprintf("(forall (%s) (! %s :pattern (%s)))", strings.Join(binders, " "), body, strings.Join(pats, " "))
-	}
-	return fmt.Sprintf("(forall (%s) %s)", strings.Join(binders, " "), body)
+	return and(out...)
 }
